@@ -17,6 +17,9 @@ namespace sbepp::sbeppc
 class fs_provider : public ifs_provider
 {
 public:
+    // no schema comes anywhere near this
+    static constexpr std::size_t max_file_size = 256 * 1024 * 1024;
+
     std::string read_file(const std::filesystem::path& path) override
     {
         std::ifstream is{path, std::ios::in | std::ios::binary};
@@ -29,6 +32,16 @@ public:
             while(is.read(chunk, sizeof(chunk)))
             {
                 data.append(chunk, sizeof(chunk));
+                // ... and something that never reports end of file
+                // (`/dev/zero`, a pipe that is fed forever) must not be read
+                // until memory runs out
+                if(data.size() > max_file_size)
+                {
+                    throw_error(
+                        "file is too big (more than {} bytes): `{}`",
+                        max_file_size,
+                        path);
+                }
             }
             data.append(chunk, static_cast<std::size_t>(is.gcount()));
             if(!is.bad())
